@@ -6,4 +6,4 @@ From Scenic Require Import C17.Vec C04.Polytope C04.Overlap C04.Nested C04.Plana
 Extraction Language OCaml.
 Extraction "model.ml" separates common_point inside_halfspaces vertex_outside inside_clear
   intersects_vol intersects_obj contains_obj contains_footprint Qplus Qdiv Qred Qle_bool
-  z_apart_num planar_fast approx run_requests.
+  z_apart_num planar_fast approx approx_flat run_requests.
